@@ -4,6 +4,9 @@ Observational equality is not decided.  Decided: dispatch and interface.
 R10.1 the deserialiser registry dispatches every serialisable subclass, unambiguously
 R10.2 writer keys cover the keys its reader requires
 R10.3 no effect is lost while a deserialiser rebuilds an object
+
+Added in build round 2 (see DESIGN.md section 3, round-2 table):
+R10.5 pickle protocol pairs agree: for every class defining both __getstate__ and __setstate__, the keys __setstate__ requires are written by __getstate__ ...
 """
 
 from __future__ import annotations
